@@ -2,7 +2,7 @@
    source returned (value or error per field), the configured base fee and the wall clock; mercury/fees.go CalculateFee
    (shopspring/decimal Mul / Div = DivRound(16) / BigInt with their panics); and proto.Marshal of the four
    MercuryObservationProto messages (proto3: zero values are not emitted, fields in field-number order). *)
-From DS Require Import Base Wire Sort Decimal MercuryAgg Config MercuryReport.
+From DS Require Import Base Wire Sort Decimal MercuryAgg Config MercuryReport RepoConstants.
 Open Scope Z_scope.
 
 Definition dzc (d : dec) : Z := big_toZ (dcoef d).
@@ -126,3 +126,8 @@ Definition merc_encode1 (m : mobs1) : bytes :=
   f_varint 9 (b2z (m1_cur_valid m)) ++
   f_varint 10 (u64w (m1_mfb m)) ++ f_varint 11 (b2z (m1_mfb_valid m)) ++
   flat_map (fun b => f_msg 12 (block_encode b)) (m1_blocks m).
+
+(* MaxObservationLength as the real factories declare it to libocr (regenerated from /repo on every run) *)
+Definition merc_limit (ver : Z) : Z :=
+  if ver =? 1 then MercMaxObservationLength1 else if ver =? 2 then MercMaxObservationLength2
+  else if ver =? 3 then MercMaxObservationLength3 else MercMaxObservationLength4.
